@@ -140,10 +140,10 @@ func (r *RequestContext) Cookie(name string) string {
 		return ""
 	}
 
-	for _, cookie := range strings.Split(values, ";") {
-		if cookieName, cookieValue, ok := strings.Cut(cookie, "="); ok && strings.TrimSpace(cookieName) == name {
-			return strings.TrimSpace(cookieValue)
-		}
+	// parsed exactly as the HTTP based services do
+	req := http.Request{Header: http.Header{"Cookie": {values}}}
+	if cookie, err := req.Cookie(name); err == nil {
+		return cookie.Value
 	}
 
 	return ""
